@@ -4,14 +4,20 @@
 (*   tlc -config MCPublish_inplace1.cfg MCPublish.tla   in-place store, 1 fault: everything holds   *)
 (*   tlc -config MCPublish_inplace2.cfg MCPublish.tla   in-place store, 2 faults: QIndexImpliesAll *)
 (*                                                      is REFUTED (the defect of LocalPipelineIo) *)
+(*   tlc -config MCPublish_descend.cfg  MCPublish.tla   to-be publisher that descends into sub-     *)
+(*                                                      folders, index.wtml last overall: all holds *)
 (* checks/c18.py generates the same module for the file sets of each tier and *)
 (* adds ACTION_CONSTRAINT EmitEdge to dump every transition of the graph.     *)
 EXTENDS Publish, Json
 
 MCConfigs == { [imgA |-> {"data.png", "index.wtml", "index_rel.wtml"}],
                [imgA |-> {"data.png", "thumb.jpg"}],
-               [imgA |-> {"data.png", "index.wtml"}, imgB |-> {"index.wtml", "thumb.jpg"}] }
+               [imgA |-> {"data.png", "index.wtml"}, imgB |-> {"index.wtml", "thumb.jpg"}],
+               [imgA |-> {"data.png", "index.wtml", "tiles/0_0.png"}] }
 ASSUME \A c \in MCConfigs : \A i \in DOMAIN c : c[i] # {}
+\* the files that lie in a sub-folder of their image directory, with the name of that sub-folder
+MCNested == [f \in {"tiles/0_0.png"} |-> "tiles"]
+MCTopOf == [f \in UNION {UNION {c[i] : i \in DOMAIN c} : c \in MCConfigs} |-> IF f \in DOMAIN MCNested THEN MCNested[f] ELSE None]
 
 \* a state as the harness reads it: the variables plus TLC's evaluation of the property's formulas in it
 St == [files |-> files, store |-> store, loc |-> loc, pc |-> pc, queue |-> queue, cur |-> cur,
@@ -22,10 +28,10 @@ St == [files |-> files, store |-> store, loc |-> loc, pc |-> pc, queue |-> queue
 \* the harness realises them differently: BaseException / OSError at the put_item boundary or from its source /
 \* OSError from the open() of the store-side file inside the real put_item / a real file-size limit or a failing
 \* os.replace while the real put_item writes)
-Acts == {a \in {"Start", "NextImage", "BeginPut", "EndPut", "Rename", "Finish", "Crash", "Fail", "Refuse", "StoreFail"} :
+Acts == {a \in {"Start", "NextImage", "BeginPut", "EndPut", "Rename", "Finish", "Crash", "Fail", "Refuse", "StoreFail", "RefuseSubdir"} :
            CASE a = "Start" -> Start [] a = "NextImage" -> NextImage [] a = "BeginPut" -> BeginPut
              [] a = "EndPut" -> EndPut [] a = "Rename" -> Rename [] a = "Finish" -> Finish
              [] a = "Crash" -> Crash [] a = "Fail" -> Fail [] a = "Refuse" -> Refuse
-             [] a = "StoreFail" -> StoreFail}
+             [] a = "StoreFail" -> StoreFail [] a = "RefuseSubdir" -> RefuseSubdir}
 EmitEdge == PrintT(<<"E", ToJson([s |-> St, t |-> St', acts |-> Acts])>>)
 =============================================================================
